@@ -60,6 +60,9 @@ def run_demo(crate, name):
     return sh(["cargo", "test", "--offline", "-p", pkg, "--test", name, "--", "--test-threads", "1"], cwd=WT)
 
 
+TAG = ""
+
+
 def main():
     out_dir, pid, n = sys.argv[1], sys.argv[2], sys.argv[3]
     checks = [pid]
@@ -70,6 +73,10 @@ def main():
         if a == "--tier":
             tier = sys.argv[i + 1]
     keep_wt = "--keep" in sys.argv
+    global TAG
+    for i, a in enumerate(sys.argv):
+        if a == "--tag":
+            TAG = sys.argv[i + 1] + "-"
     patch = os.path.join(out_dir, "patch%s.diff" % n)
     demo = os.path.join(out_dir, "demo%s.rs" % n)
     note = os.path.join(out_dir, "note%s.md" % n)
@@ -119,7 +126,7 @@ def main():
             if viol:
                 mm = re.search(r"replay=(\S+)", viol[0])
                 if mm and os.path.exists(mm.group(1)):
-                    d = os.path.join(ROOT, "seeded", "%s-%s" % (pid, n))
+                    d = os.path.join(ROOT, "seeded", "%s-%s%s" % (pid, TAG, n))
                     os.makedirs(d, exist_ok=True)
                     rep = os.path.join(d, "replay-%s.json" % c)
                     shutil.copy(mm.group(1), rep)
@@ -134,7 +141,7 @@ def main():
 
 
 def finish(meta, pid, n, patch, demo, note):
-    d = os.path.join(ROOT, "seeded", "%s-%s" % (pid, n))
+    d = os.path.join(ROOT, "seeded", "%s-%s%s" % (pid, TAG, n))
     os.makedirs(d, exist_ok=True)
     shutil.copy(patch, os.path.join(d, "patch.diff"))
     shutil.copy(demo, os.path.join(d, "demo.rs"))
